@@ -100,11 +100,18 @@ type world struct {
 	fcStart   bool
 	maxReq    int
 	doWG      sync.WaitGroup
+	doDone    map[int]bool
 	ackN      int
 }
 
+func (w *world) isDone(i int) bool {
+	w.mu.Lock()
+	defer w.mu.Unlock()
+	return w.doDone[i]
+}
+
 func newWorld(r *rec, s *sched.S, maxRetries, maxReq int) *world {
-	w := &world{r: r, s: s, failNext: map[int]bool{}, blockNext: map[int]bool{}, unblock: map[int]chan struct{}{}, ctxs: map[int]context.Context{}, cancels: map[int]context.CancelFunc{}, maxReq: maxReq}
+	w := &world{r: r, s: s, failNext: map[int]bool{}, blockNext: map[int]bool{}, unblock: map[int]chan struct{}{}, ctxs: map[int]context.Context{}, cancels: map[int]context.CancelFunc{}, doDone: map[int]bool{}, maxReq: maxReq}
 	w.clk = neo.NewTime(time.Date(2026, 1, 1, 0, 0, 0, 0, time.UTC))
 	w.e = rpc.New(func(ctx context.Context, id int64, seqNo int32, in bin.Encoder) error {
 		i := int(id-7000) / 4
@@ -157,6 +164,9 @@ func (w *world) startDo(i int) {
 	run := func() {
 		err := w.e.Do(ctx, rpc.Request{MsgID: msgID(i), SeqNo: int32(2*i + 1), Input: input{int32(100 + i)}, Output: &output{w.r, i}})
 		w.r.emit(tr.M{"ev": "DoReturn", "i": i, "err": class(err, ctx), "retryable": retryable(err)})
+		w.mu.Lock()
+		w.doDone[i] = true
+		w.mu.Unlock()
 		w.doWG.Done()
 	}
 	w.doWG.Add(1)
@@ -341,7 +351,11 @@ func replay(r *rec, trace int, c tr.M, maxRetries int) {
 // ---------------------------------------------------------------- free running
 
 func free(r *rec, trace int, rng *rand.Rand, maxRetries int) {
-	verifhook.Install(nil)
+	// free running: gates never park; the scheduler only detects quiescence at the end of the trace
+	s := sched.New()
+	s.PassThrough = true
+	s.Watch = []string{"rpc.(*Engine)", "main.(*world)"}
+	defer s.Close()
 	r.emit(tr.M{"ev": "reset", "trace": trace, "maxretries": maxRetries, "sched": false})
 	w := newWorld(r, nil, maxRetries, 3)
 	nreq := 3
@@ -387,13 +401,22 @@ func free(r *rec, trace int, rng *rand.Rand, maxRetries int) {
 	}
 	wg.Wait()
 	w.forceClose(fcDone)
-	allDone := make(chan struct{})
-	go func() { <-fcDone; w.doWG.Wait(); close(allDone) }()
-	select {
-	case <-allDone:
-	case <-time.After(10 * time.Second):
-		for i := 1; i <= nreq; i++ {
+	// after ForceClose every Do must return: wait until the engine and caller goroutines have
+	// finished or are blocked for good (the clock is fake, nothing else will happen); no wall-clock guess
+	s.Settle()
+	for i := 1; i <= nreq; i++ {
+		if !w.isDone(i) {
 			r.emit(tr.M{"ev": "Stuck", "i": i})
+		}
+	}
+	select {
+	case <-fcDone:
+	default:
+		// ForceClose itself did not return
+		for i := 1; i <= nreq; i++ {
+			if w.isDone(i) {
+				r.emit(tr.M{"ev": "Stuck", "i": i})
+			}
 		}
 	}
 	r.emit(tr.M{"ev": "End"})
